@@ -416,7 +416,8 @@ struct Driver {
         NEED(p >= 0 && p <= sz && (!g.own || g.idx < sz));
         int val = g.own ? r[g.idx] : g.val;
         if (!g.own && op != "emplace") mkTmp(val);
-        strongOp = true;
+        // single-element insert / emplace: strong "element moves being noexcept"; before end() elements have to be moved
+        strongOp = (p == sz) || (std::is_nothrow_move_constructible<T>::value && std::is_nothrow_move_assignable<T>::value);
         insertPoint = p;
         rvOwn = (op == "insert_rv" && g.own);
         arm();
